@@ -344,7 +344,11 @@ func RunHistory(r *core.Run, rnd *rand.Rand, sc *Schema, cfg *HistoryCfg, label 
 			r.Violation(sig, witness(map[string]any{"statement": q, "mismatch": mode,
 				"expected": describe(exp.Err, exp.AffText(), exp.Matched, expRows),
 				"engine":   describe(obs.Err, fmt.Sprint(obs.Aff), obs.Matched, obs.Rows), "engine_error": obs.ErrText, "row_count()": rowCount}))
-			return verdicts
+			// a deviation in a count or in the error class leaves model and engine in step; any
+			// other deviation ends the history (the states have diverged)
+			if (exp.Err == "") != (obs.Err == "") || !core.SameStrings(expRows, obs.Rows) {
+				return verdicts
+			}
 		}
 		if cfg.Invariant {
 			r.Count("invariant.evaluations", 1)
